@@ -5,7 +5,6 @@ import (
 	"fmt"
 	"math"
 	"os"
-	"sort"
 	"testing"
 
 	. "github.com/pbenner/autodiff"
@@ -76,6 +75,10 @@ func drawSubset(t *rapid.T, label string, m int) []int {
 	}
 	if len(s) == 0 {
 		s = []int{rapid.IntRange(0, m-1).Draw(t, label+".one")}
+	}
+	// a set: the order in which its members are listed carries no meaning
+	if len(s) > 1 && rapid.Bool().Draw(t, label+".shuffled") {
+		s = rapid.Permutation(s).Draw(t, label+".order")
 	}
 	return s
 }
@@ -760,8 +763,8 @@ type tableSet struct {
 }
 
 func (s *tableSet) GetRecord(i int) generic.HmmDataRecord { return s.recs[i] }
-func (s *tableSet) GetNMapped() int                        { return s.nmapped }
-func (s *tableSet) GetNRecords() int                       { return len(s.recs) }
+func (s *tableSet) GetNMapped() int                       { return s.nmapped }
+func (s *tableSet) GetNRecords() int                      { return len(s.recs) }
 func (s *tableSet) GetN() int {
 	n := 0
 	for _, r := range s.recs {
@@ -778,8 +781,8 @@ type bwCore struct {
 }
 
 func (c *bwCore) EvaluateLogPdf(p threadpool.ThreadPool) error { return nil }
-func (c *bwCore) GetBasicHmm() generic.BasicHmm               { return c.hmm1 }
-func (c *bwCore) Swap()                                       { c.hmm1, c.hmm2 = c.hmm2, c.hmm1 }
+func (c *bwCore) GetBasicHmm() generic.BasicHmm                { return c.hmm1 }
+func (c *bwCore) Swap()                                        { c.hmm1, c.hmm2 = c.hmm2, c.hmm1 }
 func (c *bwCore) Step(meta ConstVector, tmp []generic.BaumWelchTmp, p threadpool.ThreadPool) (float64, error) {
 	l, err := c.hmm1.BaumWelchStep(c.hmm1, c.hmm2, c.data, meta, tmp, p)
 	c.stepErr = err
@@ -1314,7 +1317,6 @@ func TestC15_mixture_enum(t *testing.T) {
 			t.Fatalf("%s: LogPdf = %v, direct sum over components gives %v (component log densities %v)", c.Desc(), got, total, e)
 		}
 		states := drawSubset(t, "states", k)
-		sort.Ints(states)
 		var num, den []float64
 		for _, j := range states {
 			num = append(num, math.Log(w[j]/s)+e[j])
